@@ -261,10 +261,16 @@ def bandlimited_rms(r, psd, wllow=None, wlhigh=None, flow=None, fhigh=None):
     # prysm doesn't enforce the user to be "top left" or "lower left" origin,
     # abs makes sure we do things right no matter what
     dx = abs(pt2 - pt1)
-    reduced = np.trapz(work, dx=dx, axis=0)
+    # numpy 2 renamed trapz to trapezoid and later removed the old name
+    if hasattr(np, 'trapezoid'):
+        trapezoid = np.trapezoid
+    else:
+        trapezoid = np.trapz
+
+    reduced = trapezoid(work, dx=dx, axis=0)
 
     if r.ndim == 2:
-        reduced = np.trapz(reduced, dx=dx, axis=0)
+        reduced = trapezoid(reduced, dx=dx, axis=0)
 
     return np.sqrt(reduced)
 
